@@ -106,6 +106,12 @@ def run(case, ctx, rng):
         if not is_exc(got):
             ctx.eq('mac-length', len(got), D, h=name)
         # same object, second and third message (the hash object is shared by both nested calls)
+        kb = bytearray(K)
+        macb = call(HMAC, make(name), kb)
+        if not is_exc(macb):
+            for i in range(len(kb)): kb[i] = 0              # the caller wipes / reuses its buffer
+            kb += b'xx'
+            ctx.eq('hmac==rfc2104', call(macb, M), ref(name, K, M), h=name, K=K, M=M, key_buffer_wiped_after_setkey=True)
         mac = call(HMAC, make(name), K)
         if not is_exc(mac):
             M2 = pattern(rng, case['ml'] + 3, 'rand')
